@@ -465,3 +465,126 @@ Qed.
 Lemma frames_at_least_one_proof fps occ s e :
   fst (frames_from_times fps occ s e) + 1 <= snd (frames_from_times fps occ s e).
 Proof. apply (fft_bounds fps occ s e). Qed.
+
+(** * The active roll of sequence_to_pianoroll, for any note list (occupancy test off,
+    onsets overlapping, no blank frame): a cell is active iff some in-range note covers it *)
+Lemma paint_spec_clamped (v : bool) m R P s e p : rect m R P -> (p < P)%nat -> 0 <= s -> 0 <= e ->
+  rect (paint m s e p (fun _ => v)) R P /\
+  forall j q, mg (paint m s e p (fun _ => v)) j q = if covers s e p j q && Nat.ltb j R then v else mg m j q.
+Proof.
+  intros Hm Hp Hs He. unfold paint. cbv zeta.
+  assert (Hlen : Z.of_nat (length m) = Z.of_nat R) by (destruct Hm as [-> _]; reflexivity).
+  rewrite Hlen.
+  assert (Hidx : forall x, 0 <= x -> py_idx (Z.of_nat R) x = Z.min x (Z.of_nat R)).
+  { intros x Hx. unfold py_idx. destruct (x <? 0) eqn:E; [apply Z.ltb_lt in E; lia|reflexivity]. }
+  rewrite !Hidx by assumption.
+  destruct (paint_from_spec v (Z.min s (Z.of_nat R)) (Z.min e (Z.of_nat R)) p m 0 R P Hm Hp) as [H1 H2].
+  split; [assumption|]. intros j q. rewrite H2. unfold covers. cbn [Z.add].
+  destruct (Nat.ltb j R) eqn:Ej; [|rewrite andb_false_r; reflexivity].
+  apply Nat.ltb_lt in Ej. cbn [andb]. rewrite andb_true_r.
+  replace (Z.min s (Z.of_nat R) <=? Z.of_nat j) with (s <=? Z.of_nat j)
+    by (destruct (s <=? Z.of_nat j) eqn:E1; destruct (Z.min s (Z.of_nat R) <=? Z.of_nat j) eqn:E2; try reflexivity;
+        [apply Z.leb_le in E1; apply Z.leb_gt in E2; lia|apply Z.leb_gt in E1; apply Z.leb_le in E2; lia]).
+  replace (Z.of_nat j <? Z.min e (Z.of_nat R)) with (Z.of_nat j <? e)
+    by (destruct (Z.of_nat j <? e) eqn:E1; destruct (Z.of_nat j <? Z.min e (Z.of_nat R)) eqn:E2; try reflexivity;
+        [apply Z.ltb_lt in E1; apply Z.ltb_ge in E2; lia|apply Z.ltb_ge in E1; apply Z.ltb_lt in E2; lia]).
+  reflexivity.
+Qed.
+
+Lemma fold_paint_true_clamped (fr : snote -> Z * Z * nat) : forall l m R P, rect m R P ->
+  (forall n, In n l -> 0 <= fst (fst (fr n)) /\ 0 <= snd (fst (fr n)) /\ (snd (fr n) < P)%nat) ->
+  let res := fold_left (fun m n => paint m (fst (fst (fr n))) (snd (fst (fr n))) (snd (fr n)) (fun _ => true)) l m in
+  rect res R P /\
+  forall j q, mg res j q = true <->
+              (mg m j q = true \/
+               ((j < R)%nat /\ exists n, In n l /\ covers (fst (fst (fr n))) (snd (fst (fr n))) (snd (fr n)) j q = true)).
+Proof.
+  induction l as [|n l IH]; intros m R P Hm Hl.
+  - cbn. split; [assumption|]. intros j q. split; [auto|]. intros [H|(_ & n & [] & _)]. assumption.
+  - cbn [fold_left].
+    destruct (Hl n (or_introl eq_refl)) as (H1 & H2 & H3).
+    destruct (paint_spec_clamped true m R P _ _ _ Hm H3 H1 H2) as [Hr Hg].
+    specialize (IH _ R P Hr (fun n' Hn' => Hl n' (or_intror Hn'))). cbv zeta in IH.
+    destruct IH as [IH1 IH2]. split; [assumption|].
+    intros j q. rewrite IH2. rewrite Hg. split.
+    + intros [H|(HjR & n' & Hn' & Hc)].
+      * destruct (covers _ _ _ j q && Nat.ltb j R) eqn:E; [|left; assumption].
+        apply andb_prop in E. destruct E as [E1 E2]. apply Nat.ltb_lt in E2.
+        right. split; [assumption|]. exists n. split; [left; reflexivity|assumption].
+      * right. split; [assumption|]. exists n'. split; [right|]; assumption.
+    + intros [H|(HjR & n' & [Hn'|Hn'] & Hc)].
+      * left. rewrite H. destruct (covers _ _ _ j q && Nat.ltb j R); reflexivity.
+      * subst n'. left. rewrite Hc. apply Nat.ltb_lt in HjR. rewrite HjR. reflexivity.
+      * right. split; [assumption|]. exists n'. split; assumption.
+Qed.
+
+Theorem active_frames_proof c notes :
+  c_blank c = false -> c_overlap c = true -> gt0 (c_occ c) = false ->
+  0 <= rows_of c -> 0 <= cols_of c ->
+  (forall n, In n notes -> in_range c n = true -> 0 <= sframe (c_fps c) (n_start n)) ->
+  forall i p, 0 <= i -> 0 <= p ->
+  (mget (active_roll c notes) i p = true <->
+   (i < rows_of c /\
+    exists n, In n notes /\ in_range c n = true /\ p = n_pitch n - c_min_pitch c /\
+              sframe (c_fps c) (n_start n) <= i <
+              Z.max (sframe (c_fps c) (n_start n) + 1) (eframe (c_fps c) (n_end n)))).
+Proof.
+  intros Hblank Hover Hocc Hrows Hcols Hnonneg i p Hi Hp.
+  set (fr := fun n : snote => (f_start (note_frames c n), f_end (note_frames c n), col_of c n)).
+  unfold active_roll.
+  rewrite (fold_left_ext (paint_active c)
+             (fun m n => paint m (fst (fst (fr n))) (snd (fst (fr n))) (snd (fr n)) (fun _ => true)))
+    by (intros m n; unfold paint_active; rewrite Hblank; reflexivity).
+  pose proof (blank_rect (rows_of c) (cols_of c) Hrows Hcols) as Hb.
+  assert (Hfr : forall n, fr n = (sframe (c_fps c) (n_start n),
+                                  Z.max (sframe (c_fps c) (n_start n) + 1) (eframe (c_fps c) (n_end n)), col_of c n)).
+  { intros n. unfold fr, note_frames. cbn [f_start f_end]. rewrite Hover.
+    unfold main_frames, fft. rewrite (fft_no_occupancy _ _ _ _ Hocc). reflexivity. }
+  assert (Hpn : forall n, In n (painted_notes c notes) <-> In n notes /\ in_range c n = true).
+  { intros n. unfold painted_notes. rewrite filter_In, sort_notes_In. reflexivity. }
+  assert (Hrange : forall n, in_range c n = true -> 0 <= n_pitch n - c_min_pitch c < cols_of c).
+  { intros n H. unfold in_range in H. apply negb_true_iff in H. apply orb_false_elim in H. destruct H as [H1 H2].
+    apply Z.ltb_ge in H1. apply Z.ltb_ge in H2. unfold cols_of. lia. }
+  destruct (fold_paint_true_clamped fr (painted_notes c notes) _ _ _ Hb) as [_ Hres].
+  { intros n Hn. apply Hpn in Hn. destruct Hn as [Hn Hr]. rewrite Hfr. cbn [fst snd].
+    pose proof (Hnonneg n Hn Hr). pose proof (Hrange n Hr). unfold col_of. lia. }
+  cbv zeta in Hres.
+  unfold mget. destruct (i <? 0) eqn:Ei; [apply Z.ltb_lt in Ei; lia|].
+  destruct (p <? 0) eqn:Ep; [apply Z.ltb_lt in Ep; lia|]. cbn [orb].
+  rewrite Hres. rewrite blank_mg. split.
+  - intros [H|(HjR & n & Hn & Hc)]; [discriminate|].
+    apply Hpn in Hn. destruct Hn as [Hn Hr]. rewrite Hfr in Hc. cbn [fst snd] in Hc. unfold covers in Hc.
+    apply andb_prop in Hc. destruct Hc as [Hc Hq]. apply andb_prop in Hc. destruct Hc as [Hc1 Hc2].
+    apply Z.leb_le in Hc1. apply Z.ltb_lt in Hc2. apply Nat.eqb_eq in Hq.
+    pose proof (Hrange n Hr). unfold col_of in Hq.
+    split; [lia|]. exists n. split; [assumption|]. split; [assumption|]. split; lia.
+  - intros (HiR & n & Hn & Hr & Hpn' & Hspan). right. split; [lia|].
+    exists n. split; [apply Hpn; split; assumption|]. rewrite Hfr. cbn [fst snd]. unfold covers, col_of.
+    rewrite Z2Nat.id by lia.
+    destruct (sframe (c_fps c) (n_start n) <=? i) eqn:E1; [|apply Z.leb_gt in E1; lia].
+    destruct (i <? Z.max (sframe (c_fps c) (n_start n) + 1) (eframe (c_fps c) (n_end n))) eqn:E2; [|apply Z.ltb_ge in E2; lia].
+    cbn [andb]. apply Nat.eqb_eq. lia.
+Qed.
+
+Theorem active_roll_shape_proof c notes :
+  c_blank c = false -> c_overlap c = true -> gt0 (c_occ c) = false ->
+  0 <= rows_of c -> 0 <= cols_of c ->
+  (forall n, In n notes -> in_range c n = true -> 0 <= sframe (c_fps c) (n_start n)) ->
+  rect (active_roll c notes) (Z.to_nat (roll_rows (c_fps c) (c_total c))) (Z.to_nat (c_max_pitch c - c_min_pitch c + 1)).
+Proof.
+  intros Hblank Hover Hocc Hrows Hcols Hnonneg.
+  set (fr := fun n : snote => (f_start (note_frames c n), f_end (note_frames c n), col_of c n)).
+  unfold active_roll.
+  rewrite (fold_left_ext (paint_active c)
+             (fun m n => paint m (fst (fst (fr n))) (snd (fst (fr n))) (snd (fr n)) (fun _ => true)))
+    by (intros m n; unfold paint_active; rewrite Hblank; reflexivity).
+  pose proof (blank_rect (rows_of c) (cols_of c) Hrows Hcols) as Hb.
+  destruct (fold_paint_true_clamped fr (painted_notes c notes) _ _ _ Hb) as [Hr _]; [|exact Hr].
+  intros n Hn. unfold painted_notes in Hn. apply filter_In in Hn. destruct Hn as [Hn Hr].
+  apply (proj1 (sort_notes_In _ _)) in Hn.
+  unfold fr, note_frames. cbn [f_start f_end fst snd]. rewrite Hover.
+  unfold main_frames, fft. rewrite (fft_no_occupancy _ _ _ _ Hocc). cbn [fst snd].
+  pose proof (Hnonneg n Hn Hr).
+  unfold in_range in Hr. apply negb_true_iff in Hr. apply orb_false_elim in Hr. destruct Hr as [H1 H2].
+  apply Z.ltb_ge in H1. apply Z.ltb_ge in H2. unfold col_of, cols_of in *. lia.
+Qed.
